@@ -2011,8 +2011,20 @@ def _c18_deferred_err_op_harnesses(prop):
     out = []
     for mac in ("join", "join_spawn", "join_async", "join_async_spawn"):
         is_async = "async" in mac
-        for op in ("or_else", "map_err", "or"):
-            if is_async:
+        for op in ("or_else", "map_err", "or", "wrap_map", "wrap_and_then"):
+            if op.startswith("wrap_"):
+                # the later step starts with a deferred operator in its WRAPPER form (`~|> >>> ..`): still a step boundary
+                inner = "|> move |x: u8| { ev_e(ep, code(K_CALL, 0, 1, 0)); x }"
+                w = "~|> >>> " + inner if op == "wrap_map" else "~=> >>> " + inner
+                if is_async:
+                    if op == "wrap_and_then":
+                        continue
+                    b0 = "async move { Some(1u8) } " + w
+                    b1 = "async move { if true { panic!(\"INJECTED\") } Some(2u8) }"
+                else:
+                    b0 = "Some(Some(1u8)) " + w
+                    b1 = "Some(2u8) |> |x: u8| -> u8 { panic!(\"INJECTED\") }"
+            elif is_async:
                 b0 = "async move { Err::<u8, u8>(1) }"
                 if op == "or_else":
                     b0 += " ~<= move |e: u8| async move { ev_e(ep, code(K_CALL, 0, 1, 0)); Ok::<u8, u8>(e) }"
